@@ -273,8 +273,8 @@ func dropEmpty(v interface{}) (interface{}, bool) {
 }
 
 func (c *child) planRoundtrip() (int, func(int)) {
-	nSingle := kit.Scale(2600, 24000)
-	nStream := kit.Scale(250, 2500)
+	nSingle := kit.Scale(2600, 16000)
+	nStream := kit.Scale(250, 2000)
 	nBoundary := len(boundaryTargets) * 7 * 2
 	nEmpty := len(emptyCollectionCases)
 	if c.shard != 0 {
